@@ -95,6 +95,9 @@ def cases(tier):
     for role in SRC_ROLES:
         for r in (None,) + ROOTS:
             yield ('S', role, r)
+            # the file name given by string symbols (a string symbol has no relativity of its own: option / default of the ARGUMENT apply)
+            for form in ('bare', 'quoted', 'glued'):
+                yield ('S', role, r, form)
 
 
 HEAD = ['[conf]', 'act-home = ah', '[setup]', "def string S = 'sd'"]
@@ -622,7 +625,8 @@ SRC_ROLES = {
 
 
 def _src(res, case, w, seam):
-    _, role, r = case
+    role, r = case[1], case[2]
+    form = case[3] if len(case) > 3 else 'plain'
     tmpl, accepted, default, kind, phase = SRC_ROLES[role]
     eff = r or default
     name = 'only-under-%s' % eff
@@ -647,7 +651,11 @@ def _src(res, case, w, seam):
             pre.append('copy exe-src %s %s' % (where, name))
         else:
             pre.append("file %s %s = <<EOF\nX\nEOF" % (where, name))
-    instr = tmpl.replace('{P}', opt + name)
+    written = {'plain': name, 'bare': '@[NM]@', 'quoted': '"@[NM]@"', 'glued': '@[N1]@@[N2]@'}[form]
+    instr = tmpl.replace('{P}', opt + written)
+    if form != 'plain':
+        pre = pre + ['def string NM = %s' % name, 'def string N1 = %s' % name[:4], "def string N2 = '%s'" % name[4:]]
+        name_shown = '%s (= %s)' % (written, name)
     lines = list(HEAD) + pre
     if phase == 'setup':
         lines += [instr, '[act]', '% atc']
